@@ -1,6 +1,7 @@
 """Per-property checks. Each function fills a Report; verdicts come from TLC output only."""
 import json, os, re, subprocess, time
 from vlib import *
+from concurrent.futures import ThreadPoolExecutor
 
 TRUSTED = ["TLC 1.8 (tla2tools.jar) and CommunityModules", "harness encoder/observer in /verif/harness (mechanical, no expected values)",
            "rustc/cargo, flate2 (zlib streams)"]
@@ -104,11 +105,12 @@ def stage_cases(rep, work, binpath, cases, name, spec="Trace_Load", shards=8, jv
     rep.stage(name, cases=n, harness_s=round(t1 - t0, 1), tlc_s=round(res["wall"], 1), tlc_states=res["distinct"],
               outcomes=dict(zip(["ok", "err", "either", "unstructured"], res["outcomes"])), rejects=len(res["rejects"]), crashes=len(crashes))
     log(f"[{rep.pid}] stage {name}: {n} cases, harness {t1-t0:.1f}s, tlc {res['wall']:.1f}s, outcomes {res['outcomes']}, rejects {len(res['rejects'])}")
-    for o in outs:
-        try:
-            os.remove(o)
-        except OSError:
-            pass
+    if not os.environ.get("VERIF_KEEP"):
+        for o in outs:
+            try:
+                os.remove(o)
+            except OSError:
+                pass
     return res
 
 
@@ -523,3 +525,93 @@ def c07(rep, work, tier, seed):
 
 
 CHECKS["C07"] = (c07, "model_checking")
+
+
+# ------------------------------------------------------------------------------------------
+# C13 / C14: reader behaviour
+def driver_stage(rep, work, binpath, sub, cases, name, extra_args, spec="Trace_Read", shards=12, kinds=None):
+    """Run a harness driver (cuts / readers) over case shards in parallel, validate its traces with TLC."""
+    paths, n = split_lines(cases, shards, work.path(name + ".in"))
+    outs = [p.replace(".in.", ".ev.") for p in paths]
+    t0 = time.time()
+    def one(a):
+        r = subprocess.run([binpath, sub, "--in", a[0], "--out", a[1]] + extra_args, capture_output=True, text=True)
+        if r.returncode != 0:
+            raise ToolError(f"{sub} driver failed rc={r.returncode}: {r.stderr[-600:]}")
+    with ThreadPoolExecutor(max_workers=len(paths) or 1) as ex:
+        list(ex.map(one, zip(paths, outs)))
+    t1 = time.time()
+    res = validate_traces(spec, outs, jvms=shards, xmx="3g")
+    rep.add_model(res["generated"], res["distinct"])
+    for e in res["errors"]:
+        rep.error(f"stage {name}: {e}")
+    for rej in res["rejects"]:
+        sig = sig_of_reject(rej)
+        if kinds is not None and sig.split(":")[0] not in kinds:
+            continue
+        cid = reject_case_id(rej)
+        c = find_case(cases, cid) or {"id": cid}
+        rep.violation(sig, re.sub(r"\s+", " ", rej)[:900], {"property": rep.pid, "stage": name, "case": c, "tlc": rej, "spec": spec, "driver": sub, "args": extra_args})
+    rep.stage(name, files=n, driver_s=round(t1 - t0, 1), tlc_s=round(res["wall"], 1), counters=res["outcomes"], rejects=len(res["rejects"]))
+    log(f"[{rep.pid}] stage {name}: {n} files, driver {t1-t0:.1f}s, tlc {res['wall']:.1f}s, counters {res['outcomes']}, rejects {len(res['rejects'])}")
+    if not os.environ.get("VERIF_KEEP"):
+        for o in outs + paths:
+            try:
+                os.remove(o)
+            except OSError:
+                pass
+    return res, n
+
+
+def corpus_case_lines(maxbytes):
+    for f in corpus_cases():
+        if os.path.getsize(f) <= maxbytes:
+            yield {"id": "corpus:" + os.path.relpath(f, "/repo"), "file": f, "mode": "light"}
+
+
+def files_for_readers(work, b, seed, n, maxbytes, profile="default"):
+    cases = work.path("files.ndjson")
+    gen(b, cases, profile, seed, n)
+    with open(cases, "a") as f:
+        for c in corpus_case_lines(maxbytes):
+            f.write(json.dumps(c) + "\n")
+    return cases
+
+
+def c13(rep, work, tier, seed):
+    b = build("dev")
+    mc_run(rep, work, "MC_Read", {"MaxInt": 1, "MaxExtra": 1}, ["NoBad", "NeverBeyond", "TruncatedFails", "OkMeansAll"], workers=4)
+    cases = files_for_readers(work, b, seed, 60 if tier == "quick" else 1500, 3000 if tier == "quick" else 40000)
+    res, n = driver_stage(rep, work, b, "cuts", cases, "cuts", [], kinds={"cut_full_file_fails", "cut_prefix_loaded"})
+    rep.cov["traces_validated_against_impl"] += res["outcomes"][0]
+    rep.cov["evaluations"] += res["outcomes"][1]
+    rep.cov["distinct_nontrivial"] = res["outcomes"][1]
+    rep.sample({"file": first_cases(cases, 1, 100000)[0].get("id"), "cuts": "every offset 0..end_of_last_frame-1 plus the exact end"})
+    if res["outcomes"][0] != n:
+        rep.error(f"cuts: {res['outcomes'][0]} of {n} files evaluated")
+    rep.final = dict(rule="for every file (random sprites + corpus files under the size cap) EVERY prefix length 0..end_of_last_frame-1 is loaded and must give "
+                          "an error value; the exact end must load; evaluations = number of (file, cut) pairs; model: AseRead.TruncatedFails for all small streams",
+                     trusted=TRUSTED, exhaustive=True)
+
+
+def c14(rep, work, tier, seed):
+    b = build("dev")
+    mc_run(rep, work, "MC_Read", {"MaxInt": 2, "MaxExtra": 1}, ["FoldIsState", "NoBad", "NeverBeyond", "TruncatedFails", "ScriptIndependent", "OkMeansAll", "HardReturned"], workers=4)
+    cases = files_for_readers(work, b, seed + 3, 10 if tier == "quick" else 120, 700 if tier == "quick" else 3000, profile="rgba")
+    scripts = "F,1,H,IF,I1,1H,FI1H,HHI,II1,1F1" if tier == "quick" else "F,1,H,IF,I1,1H,FI1H,HHI,II1,1F1,HF,IHF,11H,1IIF,H1"
+    kinds = "-2,-3" if tier == "quick" else "-2,-3,-4,-5,-6,-7"
+    res, n = driver_stage(rep, work, b, "readers", cases, "readers", ["--scripts", scripts, "--kinds", kinds, "--every", "1" if tier == "quick" else "0", "--maxoff", "400"] + (["--rotate"] if tier == "quick" else []),
+                          kinds={"reader_baseline", "reader_call_sequence", "reader_stopped_early", "reader_result_differs", "reader_eof_not_error",
+                                 "reader_error_not_returned", "reader_variant_differs"})
+    rep.cov["traces_validated_against_impl"] += res["outcomes"][1]
+    rep.cov["evaluations"] += res["outcomes"][1]
+    rep.cov["read_calls_replayed"] = res["outcomes"][2]
+    rep.cov["distinct_nontrivial"] = res["outcomes"][1]
+    rep.sample({"file": first_cases(cases, 1, 100000)[0].get("id"), "scripts": scripts, "hard_error_kinds": kinds, "offsets": "every byte offset 0..len"})
+    rep.final = dict(rule="per file: cyclic reader scripts over {full, 1 byte, half, Interrupted}; one hard I/O error of each kind at EVERY byte offset (incl. past the "
+                          "needed bytes); BufReader, Cursor and File readers. Every recorded read(len)->ret call is replayed through AseRead.Step by TLC; "
+                          "the loader's result must equal the machine's (ok + equal observation, or IoError(kind) with the injected error as source)",
+                     trusted=TRUSTED)
+
+
+CHECKS.update({"C13": (c13, "fault_enumeration"), "C14": (c14, "model_checking")})
